@@ -178,7 +178,10 @@ func (r *Registry) GetNoCacheOutputHash(ctx context.Context, target *model.Targe
 				return err
 			}
 			outputsMutex.Lock()
-			digests = append(digests, outputDigest)
+			// Include the output definition: dependants read the outputs at their declared
+			// paths, so renaming an output has to change the output hash just like it does
+			// for cached targets (whose output hash covers the output paths).
+			digests = append(digests, localOutputRef.String()+"="+outputDigest)
 			outputsMutex.Unlock()
 			return nil
 		})
